@@ -381,6 +381,11 @@ def explore_product(run_point: Callable[[Any], Tuple[Optional[Dict[str, Any]], s
             return malformed_output(f"{scenario} {p}", exc), "malformed-output", 1
         except (WatchdogTimeout, MemoryError) as exc:
             return nonterminating(f"{scenario} {p}", exc), "nonterminating", 1
+        except HarnessError:
+            raise
+        except Exception as exc:  # noqa: BLE001 - (exceptions may hold unpicklable library objects: carry text across the pool)
+            import traceback
+            raise HarnessError(f"{scenario} {p}: unexpected {type(exc).__name__}: {exc}\n{traceback.format_exc()[-1500:]}") from None
 
     results = pmap(guarded_point, points)
     for p, (verdict, obs, trans) in zip(points, results):
